@@ -70,7 +70,7 @@ impl Check for HoverCheck {
             let p = w.pos_at(offs[s.below(offs.len())]);
             r.evals += 1;
             let detail = || json!({ "text": text, "token": w.tok(i).text, "token_index": i, "role": format!("{:?}", w.tok(i).role), "cursor": [p.line, p.character] });
-            let sign = |sig: &str| if ambiguous { "name-denotes-global-and-local".to_string() } else { sig.to_string() };
+            let sign = |sig: &str| if ambiguous { format!("name-denotes-global-and-local|{}|{}", sig, super::c12::role_class(&w, i)) } else { sig.to_string() };
             let h = match nav::hover(&w, p) {
                 Err((sig, what)) => {
                     r.fail(format!("{}|hover", sig), what, detail());
@@ -129,7 +129,7 @@ impl Check for HoverCheck {
             if ambiguous && r.failures.is_empty() {
                 r.label("ambiguous-name-answered-correctly");
             }
-            if r.failures.iter().any(|f| f.sig != "name-denotes-global-and-local") {
+            if r.failures.iter().any(|f| !f.sig.starts_with("name-denotes-global-and-local")) {
                 break;
             }
         }
@@ -212,7 +212,7 @@ impl Check for SignatureCheck {
                 r.evals += 1;
                 let commas = (lparen + 1..rparen).filter(|j| toks[*j].site == "call:comma" && w.laid.ranges[*j].end <= off).count();
                 let detail = || json!({ "text": text, "callee": toks[c].text, "cursor": [p.line, p.character], "cursor_byte": off });
-                let sign = |sig: &str| if ambiguous { "name-denotes-global-and-local".to_string() } else { sig.to_string() };
+                let sign = |sig: &str| if ambiguous { format!("name-denotes-global-and-local|{}|{}", sig, super::c12::role_class(&w, c)) } else { sig.to_string() };
                 let help = match nav::signature_help(&w, p) {
                     Err((sig, what)) => {
                         r.fail(format!("{}|signature-help", sig), what, detail());
@@ -267,7 +267,7 @@ impl Check for SignatureCheck {
                     nontrivial = true;
                 }
             }
-            if r.failures.iter().any(|f| f.sig != "name-denotes-global-and-local") {
+            if r.failures.iter().any(|f| !f.sig.starts_with("name-denotes-global-and-local")) {
                 break;
             }
         }
